@@ -1,4 +1,5 @@
 """C13 Cube picking"""
+import substrate
 import eevent
 import epick
 import eunits
@@ -46,4 +47,5 @@ def run(ctx):
     eevent.check_manager(ctx, F, "oxidd_manager_index")
     eevent.check_manager(ctx, F, "oxidd_manager_pointer")
     epost.check_clear_if_invalid(ctx, F)
+    substrate.run(ctx, F, dm=True)
     ctx.not_decided = "that the result implies the function, don't-care minimality, statistical uniformity"
